@@ -28,11 +28,15 @@ struct OpCtx {
 	bool model_mode = false;     // model computation: real allocator + noise, nothing logged, no faults
 	uint64_t noise_seed = 0;
 	std::vector<int> faults;     // 1-based request ordinals that must fail
+	std::vector<int> pfaults;    // 1-based mprotect ordinals that are refused (ENOMEM, protection unchanged)
 	// outputs
 	int requests = 0;            // allocation requests seen in this call
 	int fired = 0;               // faults that actually fired
 	int fired_kind[RQ_KINDS] = {0, 0, 0, 0};
 	int frees = 0;
+	int mprotects = 0;           // page-protection requests seen in this call
+	int pfired = 0;              // refused ones
+	int sigactions = 0;          // signal-disposition requests seen in this call
 };
 
 extern volatile int g_tsan_flood; // set by the TSan glue after many reports: stop un-ignoring the library
@@ -56,6 +60,8 @@ struct SeamStats {
 	uint64_t rw_rx_transitions = 0;   // secure-mode style RW->RX and RX->RW transitions
 	uint64_t rwx_plain = 0;           // RWX requests on non-secure VM buffers (allowed)
 	uint64_t maps_audits = 0;
+	uint64_t mprotect_refused = 0;    // injected page-protection failures
+	uint64_t sigactions = 0;          // sigaction/signal calls made by the library
 };
 const SeamStats &stats();
 
@@ -89,6 +95,9 @@ std::vector<GlobalWriteRace> globals_guard_disarm(uint64_t *writes_seen);
 // /proc/self/maps audit: kernel view of every tracked block must equal the model; returns number of
 // mismatches (each recorded as an anomaly) -- plain variant only.
 int maps_audit(int op_index);
+
+// hash of the process's signal dispositions (process-wide state a library call must leave as it found it)
+uint64_t signal_dispositions();
 
 // MXCSR
 static inline uint32_t get_mxcsr() { uint32_t v; __asm__ volatile("stmxcsr %0" : "=m"(v)); return v; }
